@@ -387,9 +387,9 @@ def match(xv, rv, path="", py3=True, code_fields=None):
         except UnicodeDecodeError:
             want = raw
         if type(want) is str:
-            ok = isinstance(xv, str) and xv == want
+            ok = (isinstance(xv, str) and xv == want) or (isinstance(xv, bytes) and seq_eq(xv, raw))
         else:
-            ok = isinstance(xv, bytes) and xv == want
+            ok = isinstance(xv, bytes) and seq_eq(xv, want)
         return None if ok else _why(path, "py2 str %r decoded as %r (want %r)" % (raw, xv, want))
     if k == "u2":
         raw = bytes(bytearray(int(x) for x in rv[1]))
